@@ -129,3 +129,6 @@ func (r *Recorder) Write(b []byte) (int, error) {
 	return len(b), nil
 }
 func (r *Recorder) Flush() { r.Flushed++ }
+
+// WSDialHeader returns the header passed to the i-th websocket dial (engine only).
+func WSDialHeader(i int) http.Header { return nil }
